@@ -302,3 +302,59 @@ func VpC16NearMiss() {
 	}
 	vp.Reached("end")
 }
+
+// VpC16VarCase: variable names are accepted in any letter case; a target written with its
+// variable name in lower or mixed case must select what the upper-case spelling selects (or be
+// rejected), whatever follows the colon: a string key, a regex key, an XPath.
+func VpC16VarCase() {
+	targets := []string{"XML:/*", "XML://@*", "XML://b", "ARGS:k", "ARGS:/^k/", "REQUEST_HEADERS:x-k", "&ARGS", "TX:/^a/", "ARGS_GET|!ARGS_GET:k", "REQUEST_COOKIES:/^c/"}
+	t := targets[vp.Choice("target", len(targets))]
+	// change the case of the variable name only (everything before the first ':' or '|')
+	mode := vp.Choice("case", 2)
+	alt := ""
+	inName := true
+	for i := 0; i < len(t); i++ {
+		c := t[i]
+		if c == ':' {
+			inName = false
+		}
+		if c == '|' || c == '!' || c == '&' {
+			inName = true
+		}
+		if inName && c >= 'A' && c <= 'Z' && (mode == 0 || i%2 == 0) {
+			c += 32
+		}
+		alt += string([]byte{c})
+	}
+	build := func(target string) (*corazawaf.WAF, error) {
+		return vpC16Compile("SecRuleEngine On\nSecRequestBodyAccess On\n" +
+			"SecAction \"id:9,phase:1,pass,nolog,ctl:requestBodyProcessor=XML,setvar:tx.ab=1\"\n" +
+			"SecRule " + target + " \"@vpsee 0\" \"id:1,phase:2,pass\"\n")
+	}
+	ref, err := build(t)
+	vp.Assert(err == nil, "canonical target rejected: "+t)
+	got, err2 := build(alt)
+	if err2 != nil {
+		vp.Reached("end")
+		return // rejected with an error: allowed
+	}
+	run := func(waf *corazawaf.WAF) []string {
+		vpSeeReset()
+		vpSeeMatch[0] = true
+		tx := waf.NewTransaction()
+		tx.ProcessURI("/p?k=1&j=2", "POST", "HTTP/1.1")
+		tx.AddRequestHeader("Host", "h")
+		tx.AddRequestHeader("X-K", "hv")
+		tx.AddRequestHeader("Cookie", "c1=cv; d=dv")
+		tx.AddRequestHeader("Content-Type", "text/xml")
+		tx.ProcessRequestHeaders()
+		_, _, _ = tx.WriteRequestBody([]byte("<r a=\"av\"><a>attack</a><b>x</b></r>"))
+		_, _ = tx.ProcessRequestBody()
+		out := append([]string{}, vpSeen[0]...)
+		tx.ProcessLogging()
+		_ = tx.Close()
+		return out
+	}
+	vp.Assert(vpMultisetEq(run(ref), run(got)), "target "+alt+" is accepted but does not select what "+t+" selects")
+	vp.Reached("end")
+}
